@@ -1023,3 +1023,44 @@ package psatoken
 //@   ensures[gate] ret1 == nil ==> ret0 != nil && ret0.Claims != nil && claimsValid(ret0.Claims, heapVer())
 //@   ensures[ok] ret1 == nil ==> coseDecOK(bytesVal(buf)) && fresh(ret0) && evInv(ret0)
 //@   modifies nothing
+
+// ---------------------------------------------------------------- custom marshalers (profile 1 normalisation)
+
+// what profile 1 hands to the encoder: the claims-set itself, with an empty component container
+// replaced by "no list" (so that the key is omitted); the receiver is a copy -- the caller's
+// object is never written (C17, C18)
+//@ spec specNormComps(s ISwComponents) ISwComponents = ite(s != nil && len(compsOf(s)) == 0, nil, s)
+
+//@ func (P1Claims).MarshalCBOR
+//@   property C09 C10 C17 C18 C05
+//@   requires wfComps(c.SwComponents) && em != nil
+//@   ensures[encodes] ret1 == nil ==> encP1(ret0) == withField(c, "SwComponents", specNormComps(c.SwComponents))
+//@   ensures[err] ret1 != nil ==> ret0 == nil
+//@   modifies nothing
+
+//@ func (P1Claims).MarshalJSON
+//@   property C12 C17 C18 C05
+//@   requires wfComps(c.SwComponents)
+//@   ensures[encodes] ret1 == nil ==> encP1(ret0) == withField(c, "SwComponents", specNormComps(c.SwComponents))
+//@   ensures[err] ret1 != nil ==> ret0 == nil
+//@   modifies nothing
+
+//@ func (SwComponents[*SwComponent]).MarshalCBOR
+//@   property C09 C10 C17 C18 C05
+//@   requires em != nil
+//@   ensures[err] ret1 != nil ==> ret0 == nil
+//@   modifies nothing
+
+//@ func (SwComponents[*SwComponent]).MarshalJSON
+//@   property C12 C17 C18 C05
+//@   ensures[err] ret1 != nil ==> ret0 == nil
+//@   modifies nothing
+
+//@ func ValidateSwComponents
+//@   property C05 C13 C17 C18
+//@   requires inputComps(scs)
+//@   ensures[empty] len(scs) == 0 ==> ret != nil && errOnly(ret, ErrWrongSyntax)
+//@   ensures[iff] len(scs) > 0 ==> ((ret == nil) == inputCompsValid(scs))
+//@   ensures[class] ret != nil ==> errOnly(ret, ErrMissingMandatory) || errOnly(ret, ErrWrongSyntax)
+//@   modifies nothing
+//@   loop 0 invariant 0 <= i && i <= len(scs) && forall(j, 0, i, specComponent(scs[j].(*SwComponent)))
